@@ -78,7 +78,8 @@ GrammarVerdict(g) ==
    at all -- must mean what its items say (a re-ordered attribute may be rejected, but never mis-parsed) *)
 MeaningDefined(g) ==
   /\ g.items # <<>> /\ ~HasBad(g.items) /\ NRange(g.items) = 1
-  /\ HeadMatches(g.head, RangeItem(g.items))
+  (* bit([..]) -- a list under the single-bit head -- may be rejected, but an accepted one means its list *)
+  /\ (HeadMatches(g.head, RangeItem(g.items)) \/ HeadOdd(g.head, RangeItem(g.items)))
   /\ Cardinality({k \in 1..Len(g.items) : g.items[k].cls = "access"}) <= 1
   /\ Cardinality({k \in 1..Len(g.items) : g.items[k].cls = "stride"}) <= 1
   /\ (HasStride(g.items) => g.isarray)
